@@ -2,6 +2,7 @@ package wasp
 
 import (
 	"github.com/vx-labs/mqtt-protocol/packet"
+	"github.com/vx-labs/wasp/v4/wasp/sessions"
 	rt "github.com/vx-labs/wasp/v4/zzsymxrt"
 )
 
@@ -21,10 +22,21 @@ func symxC05() {
 	if remote {
 		symxGossipSub(b1, "far", 2, "m/#", 0, 101)
 	}
-	pubS, pubC := b1.session("pub", "cp", "m", 30)
-	var open [2]bool // handshake open for id 5 / 6
+	nclients := rt.Param("clients", 1)
+	var pubSs [2]*sessions.Session
+	var pubCs [2]*symxConn
+	for k := 0; k < nclients; k++ {
+		pubSs[k], pubCs[k] = b1.session([]string{"pub", "pub2"}[k], []string{"cp", "cp2"}[k], "m", 30)
+	}
+	var opens [2][2]bool // per client: handshake open for id 5 / 6 (identifiers are per session)
 	ids := []int32{5, 6}
 	for step := 0; step < steps; step++ {
+		cl := 0
+		if nclients > 1 {
+			cl = int(rt.Int("client", 0, 1))
+		}
+		pubS, pubC := pubSs[cl], pubCs[cl]
+		open := &opens[cl]
 		b1.log.failAppend = rt.Bool("local_log_fails")
 		symxNet.fail[2] = rt.Bool("remote_fails")
 		allOK := !b1.log.failAppend && !(remote && symxNet.fail[2])
@@ -64,7 +76,7 @@ func symxC05() {
 			symxClockMs += 5000
 			symxTick()
 			b1.expire(1600000000+symxClockMs/1000+1, 0)
-			open[0], open[1] = false, false
+			opens = [2][2]bool{}
 		}
 		rt.Quiesce()
 		rt.Assert(b1.log.appends-localBefore == wantForward, "C05.forwarded_to_local_log_exactly_as_expected")
